@@ -434,7 +434,7 @@ def check_C16(tier, seed):
     o = D.Outcome('C16', tier, seed)
     o.legend = LEGEND
     o.components = dict(real=['every C translation unit of /repo/src compiled with clang -O1 and load/store/function-entry callbacks (trace flavour); '
-                              'C++ wrapper sources are compiled uninstrumented and are not exercised here'],
+                              'the C++ wrapper sources are compiled with clang++ and the same callbacks and run through every cipher, hash and xof class'],
                         stub=['thread scheduling: real pthreads released one at a time by a seeded scheduler (Bernoulli pre-emption at rate 1/10..1/5000 or d change points)',
                               'memcpy/memset/explicit_bzero wrapped so that range accesses from library code reach the detector',
                               'getrandom() (per-thread tapes, so results are schedule independent by construction of the harness)',
